@@ -348,6 +348,7 @@ pub fn c19_sweep(max_l: usize) -> Vec<Program> {
                 for b in 0..=max_l + 1 {
                     for buf in [
                         BufKind::Slice,
+                        BufKind::SubSlice,
                         BufKind::Deque,
                         BufKind::NdView,
                         BufKind::NdStrided,
